@@ -547,7 +547,7 @@ def gen_frame_opts(ctx, rng, kind, child, ids, inner=False, env=None):
             s["sobj"] = True
         # TODO(audit-1): a non-expanding Panel with padding around a child that measures 0 cells (Text(""), an empty group) is kept
         # out: the panel hands 0 cells to Padding(child), Console.render returns nothing for a width below 1 and the requested blank
-        # padding rows are missing (genuine, minor; witness /tmp/audit-1/c08/witness_panel_fit_empty_child_padding.py)
+        # padding rows are missing (genuine, minor; witness audit_artifacts/c08/witness_panel_fit_empty_child_padding.py)
         if not s["ex"] and not TODO_ON and any(unpack(s["pad"])) and measures_zero(child):
             s["pad"] = 0
         if "sbox" not in s and rng.random() < 0.15:
@@ -657,7 +657,7 @@ def gen_frame_cases(ctx, rng, kind, ncases, nwidths):
         for W in pick_widths(rng, m, nwidths, near=near):
             # TODO(audit-1): a Panel exactly 4 cells wide whose title is a Text with overflow="ellipsis" is kept out: no cell is left for
             # the title, Text.truncate(0, overflow="ellipsis") still yields the 1-cell ellipsis and the top row is 5 cells wide
-            # (genuine, minor; witness /tmp/audit-1/c08/witness_panel_w4_ellipsis_title.py)
+            # (genuine, minor; witness audit_artifacts/c08/witness_panel_w4_ellipsis_title.py)
             if kind == "panel" and spec.get("to") == "ellipsis" and min(W, spec.get("w") or W) == 4 and not TODO_ON:
                 continue
             out.append(gen_pre(rng, dict(kind=kind, spec=spec, W=W, env=env), m, 0.06))
@@ -775,7 +775,7 @@ def columns_spec(ctx, rng, ids, counts):
         spec["w"] = mi + rng.choice([0, 0, 1, 2, 4, 7, 11, 30])
         # TODO(audit-1): width=1 is kept out: Columns counts max_width // (width + max(left, right)) columns, but the grid also pads the
         # first column on the left; the table then collapses 1-cell columns to 0 cells and their items are not shown at all
-        # (genuine; witness /tmp/audit-1/c08/witness_columns_width1_item_dropped.py, fix columns_width_first_column_padding.patch)
+        # (genuine; witness audit_artifacts/c08/witness_columns_width1_item_dropped.py, fix columns_width_first_column_padding.patch)
         if spec["w"] == 1 and not TODO_ON:
             spec["w"] = 2
     elif r < 0.3:                    # every option that has its default value is not passed
